@@ -138,8 +138,9 @@ def tiers(tier):
                 ('group-edited', Scenario('group-edited', modes=MODES, n_states=1, roi=False, names=('d1',)), 4),
                 ('max-undo-2', Scenario('group-not-edited', modes=['OrMode'], n_states=1, roi=False,
                                         max_undo=2, names=('d1',)), 6)]
-    return [('empty', Scenario('empty', modes=MODES, n_states=2), 5),
-            ('group-edited', Scenario('group-edited', modes=MODES, n_states=2), 5),
+    return [('empty', Scenario('empty', modes=MODES, n_states=1), 5),
+            ('empty-two-states', Scenario('empty', modes=few, n_states=2), 5),
+            ('group-edited', Scenario('group-edited', modes=MODES, n_states=1), 5),
             ('group-not-edited', Scenario('group-not-edited', modes=few, n_states=1), 6),
             ('max-undo-2', Scenario('group-not-edited', modes=['OrMode', 'NewMode'], n_states=1, roi=False,
                                     max_undo=2, names=('d1',)), 8)]
